@@ -33,6 +33,10 @@ pub enum Elem {
     U8,
     U32,
     Tracked,
+    /// payload types whose vtables the real generator emits (simrt's `genpay`)
+    Str,
+    Bytes,
+    Rec,
 }
 #[derive(Clone, Copy, PartialEq, Eq, Debug)]
 pub enum CopyState {
